@@ -200,6 +200,26 @@ def run(ctx):
             else:
                 h.add(st, rs)
         hs.append(h)
+    # (d) the same LARGE block content twice in one run (two copies of a file of several MiB): written once, no error
+    import random as _random
+    blob = _random.Random(ctx.seed * 7919 + 14).randbytes(4 * 1024 * 1024 + 4096 * ctx.rng.randrange(1, 64)).hex()
+    bigtree = {"k": "d", "mode": 0o755, "mtime": 10**18, "c": {
+        "copy1": {"k": "f", "data": blob, "mode": 0o644, "mtime": 10**18 + 1},
+        "sub": {"k": "d", "mode": 0o755, "mtime": 10**18, "c": {"copy2": {"k": "f", "data": blob, "mode": 0o600, "mtime": 10**18 + 2}}}}}
+    bsteps = [{"op": "init"}, {"op": "mktree", "path": "src", "tree": bigtree}, {"op": "backup", "opts": {"meph": 100000, "mbs": 20 << 20, "sfc": 1 << 20}}]
+    br = ctx.cvh_run([{"id": "bigdup", "steps": bsteps}]).get("bigdup")
+    ctx.count()
+    bsmall = {"steps": [bsteps[0], {"op": "mktree", "path": "src", "tree": "two copies of one file of about 4 MiB (copy1, sub/copy2)"}, bsteps[2]]}
+    if br is None or br[2].get("result") != "ok":
+        ctx.oracle_fail("dedup/backup-failed", "backup of two copies of a large file failed: " + json.dumps(br and (br[2].get("err") or br[2].get("panic")))[:200], bsmall)
+    else:
+        wr = [it["path"] for it in br[2]["trace"] if it["verb"] == "Write" and it["path"].startswith("d/")]
+        if br[2]["value"]["errors"] or len(wr) != len(set(wr)) or br[2]["value"]["written_blocks"] != 1:
+            ctx.oracle_fail("dedup/large-block-written-twice", f"two copies of one large file in one backup: {len(wr)} block writes issued for {len(set(wr))} distinct "
+                            f"block(s), {br[2]['value']['errors']} error(s), written_blocks={br[2]['value']['written_blocks']}", bsmall)
+        else:
+            ctx.nontrivial("bigdup")
+            ctx.dist("large_duplicate_block")
     out = l4.evaluate(ctx, "C14", hs, shards=8 if quick else 16)
     agreed = total = 0
     allc = {c["id"]: c for c in cases + hcases + tcases + icases}
